@@ -18,6 +18,7 @@ func XMultiSameMethod() *spec.Spec {
 func Extended(thorough bool) []*spec.Spec {
 	out := []*spec.Spec{XMultiSameMethod(), XCrossFile(), XTwoServiceFiles()}
 	out = append(out, CtxSpecs()...)
+	out = append(out, RouteSpecs(thorough)...)
 	return out
 }
 
